@@ -196,17 +196,18 @@ def install(eng, check_tags=None):
             out.append((s, VBool(z3.BoolVal(False)) if isinstance(v, VNoneT) else VBool(rget(eng_, s, "Timer.armed", v.e))))
         return out
 
-    @bfn("timer_when")
-    def _when(eng_, st, args, kwargs):
-        return ok(st, VReal(rget(eng_, st, "Timer.when", args[0].e)))
-
-    @bfn("timer_cb")
-    def _cb(eng_, st, args, kwargs):
-        return ok(st, VObj(rget(eng_, st, "Timer.cb", args[0].e), "Callback"))
-
-    @bfn("timer_arg")
-    def _targ(eng_, st, args, kwargs):
-        return ok(st, VObj(rget(eng_, st, "Timer.arg", args[0].e), "Future"))
+    def _timer_attr(region_name, wrap, fresh_of):
+        """Attribute of an optional timer in a clause: on the None alternative the value is arbitrary (the clause's own
+        `is not None` conjunct decides), never a crash of the checker."""
+        def impl(eng_, st, args, kwargs):
+            out = []
+            for s, v in eng_.split_union(args[0], st):
+                out.append((s, fresh_of(s) if isinstance(v, VNoneT) else wrap(rget(eng_, s, region_name, v.e))))
+            return out
+        return impl
+    names["timer_when"] = VFunc("builtin", name="timer_when", impl=_timer_attr("Timer.when", VReal, lambda s: VReal(z3.Real(fresh_name("no_timer_when")))))
+    names["timer_cb"] = VFunc("builtin", name="timer_cb", impl=_timer_attr("Timer.cb", lambda e: VObj(e, "Callback"), lambda s: VObj(z3.Const(fresh_name("no_timer_cb"), ObjS), "Callback")))
+    names["timer_arg"] = VFunc("builtin", name="timer_arg", impl=_timer_attr("Timer.arg", lambda e: VObj(e, "Future"), lambda s: VObj(z3.Const(fresh_name("no_timer_arg"), ObjS), "Future")))
 
     @bfn("boxed")
     def _boxed(eng_, st, args, kwargs):
@@ -453,6 +454,14 @@ def install(eng, check_tags=None):
             return VTuple([VTuple([VTuple([i, m]) for i, m in ev[1]]) for ev in st.events if ev[0] == "write"])
         if name == "n_writes":
             return VInt(sum(1 for ev in st.events if ev[0] == "write"))
+        if name == "n_timers_armed_here":
+            # timers created on this path that are still armed
+            ts = [ev[1] for ev in st.events if ev[0] == "call_at"]
+            from pyvc.heapmodel import rget as _rg
+            e = z3.IntVal(0)
+            for t in ts:
+                e = e + z3.If(_rg(eng, st, "Timer.armed", t), 1, 0)
+            return VInt(simp(e))
         if name == "opened_socket":
             return VBool(any(ev[0] == "new_socket" for ev in st.events))
         if name == "decode_failed":
@@ -547,6 +556,11 @@ def install(eng, check_tags=None):
         return e
     eng.new_obj = new_obj
 
+    def loop_call_later(eng_, st, recv, args, kwargs):
+        """loop.call_later(delay, cb, *args) == loop.call_at(loop.time() + delay, cb, *args)  (asyncio documentation)"""
+        now = st.heap[st.ghost_oid].f["now"]
+        return loop_call_at(eng_, st, recv, [VReal(as_real(now) + as_real(args[0]))] + list(args[1:]), kwargs)
+
     def loop_call_at(eng_, st, recv, args, kwargs):
         when, cb = args[0], args[1]
         t = new_obj(st, "timer", "Timer")
@@ -591,6 +605,7 @@ def install(eng, check_tags=None):
 
     eng.obj_methods[("Loop", "time")] = loop_time
     eng.obj_methods[("Loop", "call_at")] = loop_call_at
+    eng.obj_methods[("Loop", "call_later")] = loop_call_later
     eng.obj_methods[("Loop", "create_future")] = loop_create_future
     eng.obj_methods[("Timer", "cancel")] = timer_cancel
     def fut_cancelled(eng_, st, recv, args, kwargs):
